@@ -24,7 +24,16 @@ logger = logging.getLogger(__name__)
 # are not numbers
 INPUT_INTEGER_RE = re.compile(r'[+-]?[0-9]+')
 INPUT_FLOAT_RE = re.compile(
-    r'[+-]?([0-9]+\.?[0-9]*|\.[0-9]+)([eE][+-]?[0-9]+)?')
+    r'[+-]?([0-9]+\.?[0-9]*|\.[0-9]+)([eEdD][+-]?[0-9]+)?')
+
+
+def _parse_float(text):
+    """Convert the text of a number, as typed at an INPUT prompt or
+    written in a DATA statement, to a float. The exponent letter may
+    be D as well as E (PRINT writes DOUBLE values with a D)."""
+    if isinstance(text, str):
+        text = text.replace('d', 'e').replace('D', 'E')
+    return float(text)
 
 
 class Device:
@@ -369,7 +378,7 @@ class TerminalDevice(Device):
                 elif vtype == 3:  # SINGLE
                     if not INPUT_FLOAT_RE.fullmatch(v):
                         return False
-                    v = float(v)
+                    v = _parse_float(v)
                     if math.isinf(v) or \
                        not expr.Type.SINGLE.can_hold(v):
                         return False
@@ -377,7 +386,7 @@ class TerminalDevice(Device):
                 elif vtype == 4:  # DOUBLE
                     if not INPUT_FLOAT_RE.fullmatch(v):
                         return False
-                    v = float(v)
+                    v = _parse_float(v)
                     if math.isinf(v) or \
                        not expr.Type.DOUBLE.can_hold(v):
                         return False
@@ -486,11 +495,11 @@ class DataDevice(Device):
                 self.cpu.push(CellType.LONG, value)
             elif data_type == 3:
                 value = self._parse_number(
-                    s, INPUT_FLOAT_RE, float)
+                    s, INPUT_FLOAT_RE, _parse_float)
                 self.cpu.push(CellType.SINGLE, value)
             elif data_type == 4:
                 value = self._parse_number(
-                    s, INPUT_FLOAT_RE, float)
+                    s, INPUT_FLOAT_RE, _parse_float)
                 self.cpu.push(CellType.DOUBLE, value)
             elif data_type == 5:
                 value = '' if s == Empty.value else s
